@@ -144,6 +144,8 @@ def run(ctx):
     for k in range(40 if q else 400):
         lines = rnd.randrange(1, 17 if q else 65)
         tracks = rnd.randrange(1, 5 if q else 9)
+        if k == 3:              # scale: hundreds of lines, 16+ tracks
+            lines, tracks = rnd.choice([300, 513]), rnd.choice([16, 32])
         image = []
         for _ in range(lines * tracks):
             if rnd.random() < 0.25:
